@@ -8,7 +8,7 @@
           11 Box<GenericArray>::into_iter (aux items taken, then dropped)
           12 boxed collect                   13 box_arr![a, b, ..]   14 box_arr![x; N]
           15 boxed map                       16 boxed zip            17 boxed map to another element type
-     kind  0 tracked 8-byte element (8, 8), 1 tracked zero-sized element (0, 1), 2 u32 (4, 4)
+     kind  0 tracked 8-byte element (8, 8), 1 tracked zero-sized element (0, 1), 2 a plain 4-byte element (4, 4) whose Default is stateful (the k-th call yields k)
      N     the type-level length; L the length of the runtime source (Vec, boxed slice, item count)
      spare unused capacity of a source Vec
      pan   -1, or the index of the closure call / source poll / default() call that panics
@@ -47,7 +47,7 @@ Definition decode (case : list Z) : option (elt * Z * scn * (nat -> bool)) :=
     let p := opt_idx pan in
     let src := ids 0 L in
     let gen := fun (i : nat) (_ : list Z) => 1000 + Z.of_nat i in
-    let dflt := fun (i : nat) (_ : list Z) => if kind =? 2 then 0 else 4000 + Z.of_nat i in
+    let dflt := fun (i : nat) (_ : list Z) => if kind =? 2 then Z.of_nat i else 4000 + Z.of_nat i in
     let mapf := fun (_ : nat) (r : list Z) => fold_right Z.add 5000 r in
     let zipf := fun (_ : nat) (r : list Z) => fold_right Z.add 7000 r in
     let sc :=
